@@ -16,7 +16,7 @@ INFO = {
             "(a stack of frames: S pushes, '_' pops one, _root is the outermost pushed frame, _params the keyword frame at every depth, "
             "_index the innermost repeater's index as seen from the frame, exactly one flag true); bytes built for a value must parse "
             "back to it. non-trivial = library and reference both accept and value/bytes were compared; distinct = (shape, op, input, kw)",
-    "bounds": {"quick": {"depth": 2, "depth3_alphabet": ["Struct", "SequenceD", "StructF", "Array", "ArrayD", "Prefixed", "LazyStruct"]},
+    "bounds": {"quick": {"depth": 2, "depth3_alphabet": ["Struct", "SequenceD", "StructF", "StructK", "Array", "Prefixed", "LazyStruct"]},
                "thorough": {"depth": 3, "depth3_alphabet": None}},
     "trusted_base": ["mc/ref.py context model (push/top_ctx, 25 lines) and expression evaluator"],
     "assumptions": ["LazyStruct members refer only to _, _root, _params (documented restriction: no sibling cross references)",
@@ -28,7 +28,14 @@ INFO = {
 # it is the value build computed, not the one supplied
 # StructF: the sibling is derived from a LATER member whose name starts with an underscore (forward reference at build time: the
 # supplied value must already be visible; private-looking names are ordinary member names)
-S_KINDS = ["Struct", "Sequence", "FocusedSeq", "Union", "LazyStruct", "StructD", "SequenceD", "StructF"]
+# StructK: the sibling's name is a Python keyword with the conventional trailing underscore (class_, in_, from_ ...: the only way to
+# spell such a member as a keyword argument or attribute)
+S_KINDS = ["Struct", "Sequence", "FocusedSeq", "Union", "LazyStruct", "StructD", "SequenceD", "StructF", "StructK"]
+KEYWORD_NAMES = ["class_", "in_", "from_", "pass_", "lambda_", "if_", "is_", "not_"]
+
+
+def sib_name(kind, level):
+    return KEYWORD_NAMES[level % len(KEYWORD_NAMES)] if kind == "StructK" else "x%d" % level
 DERIVED = ["Rebuild", BYTE, ["bin", "+", ["path", ["_params", "k"]], ["k", 1]]]
 R_KINDS = ["Array", "GreedyRange", "RepeatUntil", "ArrayD", "GreedyRangeD"]      # ..D: built with discard=True
 W_KINDS = ["Prefixed", "FixedSized", "Padded", "IfThenElse", "Switch", "Renamed"]
@@ -36,8 +43,8 @@ ALL_KINDS = S_KINDS + R_KINDS + W_KINDS
 
 
 def wrap(kind, inner, level):
-    x = "x%d" % level
-    if kind == "Struct":
+    x = sib_name(kind, level)
+    if kind in ("Struct", "StructK"):
         return ["Struct", [[x, BYTE], ["in", inner]]]
     if kind == "Sequence":
         return ["Sequence", [[x, BYTE], ["in", inner]]]
@@ -108,11 +115,11 @@ def probes(chain):
     for j, (k, lvl) in enumerate(scopes, start=1):
         ups.append((j, k, lvl))
         if k != "LazyStruct":
-            out.append((["_"] * j + ["x%d" % lvl], "int"))
+            out.append((["_"] * j + [sib_name(k, lvl)], "int"))
     if scopes:
         k, lvl = scopes[-1]
         if k != "LazyStruct":
-            out.append((["_root", "x%d" % lvl], "int"))
+            out.append((["_root", sib_name(k, lvl)], "int"))
         else:
             out.append((["_root", "_params", "k"], "int"))
     else:
